@@ -318,19 +318,27 @@ def list_method(ip, st, lref: LRef, name, args, kwargs):
             lref.seq = Q.seq_delete1(s, j, j + 1)
             return None
         # symbolic length: first-occurrence index as an under-specified function of (list, x)
-        if st.fork(2) == 1:
-            _raise(ValueError, "x not in list")
-        j = st.fresh_int("idx")
-        st.assume(V._cmp(">=", j, 0))
-        st.assume(V._cmp("<", j, n))
-        try:
-            st.assume(ip.equals(st, Q.seq_get(s, j), x))
-        except Unsupported:
-            pass
+        memo = st.ghost.setdefault("first_index", {})
+        mkey = (id(s), repr(getattr(x, "e", x)))
+        if mkey in memo:
+            j = memo[mkey]
+        else:
+            sure = getattr(ip.task.c, "assume_index_found", False) and getattr(s, "name", "") == "sorted"
+            if not sure and st.fork(2) == 1:
+                _raise(ValueError, "x not in list")
+            j = st.fresh_int("idx")
+            st.assume(V._cmp(">=", j, 0))
+            st.assume(V._cmp("<", j, n))
+            try:
+                st.assume(ip.equals(st, Q.seq_get(s, j), x))
+            except Unsupported:
+                pass
+            memo[mkey] = j
         if name == "index":
             return j
         if name == "remove":
             lref.seq = Q.seq_delete1(s, j, j + 1)
+            lref.last_removed = j
             return None
         raise Unsupported(f"list.{name} on symbolic list")
     if name == "sort":
@@ -354,7 +362,9 @@ def call_method(ip, st, recv, name, args, kwargs):
     if isinstance(recv, tuple) and recv and recv[0] == "super":
         _, obj, cls = recv
         if cls is list and obj.base_list:
-            return list_method(ip, st, obj.fields[obj.base_list], name, args, kwargs)
+            r = list_method(ip, st, obj.fields[obj.base_list], name, args, kwargs)
+            obj.trace.append(("list-op", name, getattr(obj.fields[obj.base_list], "last_removed", None)))
+            return r
         if cls is object and name == "__init__":
             return None
         raise Unsupported(f"super().{name} resolved to {cls.__name__}")
